@@ -23,6 +23,8 @@ def check(chk, thorough=False):
     chk.run('C12.d', 'R-FLOW', 'verdicts are fail-closed (= C03.c for BIB, C16.b for BCB); the verifier checks the actual target data (= C03.a)', lambda ob: (c03c(tree, ob, 'bib'), c16b(tree, ob), c03a(tree, ob, 'apply_bib'), c12_params(tree, ob)), floor=20)
     chk.run('C12.e', 'R-ITER', 'every security block of the bundle is visited: the loops are not invalidated by removal of accepted blocks', lambda ob: c12e(tree, ob), floor=2)
     chk.run('C12.g', 'R-FLOW', 'duplicate parameter / result ids are really detected: the id collections compared with their de-duplicated size are lists', lambda ob: c12g(tree, ob), floor=2)
+    chk.run('C12.i', 'R-FLOW', 'the AAD binds target data and metadata under their scope bits (= C03.b)', lambda ob: __import__('sa.props.c03', fromlist=['c03b']).c03b(tree, ob), floor=7)
+    chk.run('C12.j', 'R-NOPATH', 'no security block escapes verification by not being found: every block of a received bundle is entered into the type index (whatever its number), and a block that cannot be decoded fails the bundle instead of vanishing', lambda ob: c12j(tree, ob), floor=2)
     chk.run('C12.h', 'R-ORDER', 'a verification key comes only from the symmetric store, or from a validated chain whose node id MATCHED the security source (= C03.d)', lambda ob: _c03d(tree, ob), floor=3)
     chk.run('C12.f', 'R-TYPE', 'the recorded deletion reason is a reason code (integer) on every path', lambda ob: c12f(tree, ob), floor=2)
 
@@ -244,8 +246,25 @@ def c12e(tree, ob):
     cg = CallGraph(tree, [SEC, UTIL])
     for meth in ('_verify_bcb', '_verify_bib'):
         fv = FuncView(tree, SEC, 'Bpsec.' + meth)
-        lp = one([n for n in walk_local(fv.func) if isinstance(n, ast.For)], 'security block loop', ob)
+        loops = [n for n in walk_local(fv.func) if isinstance(n, ast.For)]
+        if not loops:
+            # the loop may live in a helper of the same class that both steps share
+            for c in calls_in(fv.func):
+                if isinstance(c.func, ast.Attribute) and dotted(c.func.value) == 'self' and tree.has_func(SEC, 'Bpsec.' + c.func.attr):
+                    hv = FuncView(tree, SEC, 'Bpsec.' + c.func.attr)
+                    hl = [n for n in walk_local(hv.func) if isinstance(n, ast.For) and 'block_type' in src(hv.value_at(n.iter, n, depth=2))]
+                    if hl:
+                        (fv, loops) = (hv, hl)
+                        break
+        lp = one(loops, 'security block loop', ob)
         wit = aliased_list_mutation(tree, cg, fv, lp, None)
+        if not wit and fv.qual != 'Bpsec.' + meth:
+            # inside a shared helper the verifier is reached through a local name; the removal of accepted blocks is a fact
+            # of verify_bib / verify_bcb (ctr.remove_block under accept_after_verify), so an iteration over the live index
+            # list -- block_type() without a copy -- is unsafe whatever the name of the callee
+            it = fv.value_at(lp.iter, lp, depth=2)
+            if pm('ctr.block_type($t)', it) is not None:
+                wit = 'for {} in {}: the list is the container index itself'.format(src(lp.target), src(it))
         if wit:
             ob.violate(SEC, fv.qual, 'for {} in {} (= ctr.block_type(...)): ctx.verify_*(ctr, {})'.format(src(lp.target), src(lp.iter), src(lp.target)),
                        'a fully accepted security block is removed from the very list being iterated (block_type() returns the container index), so the next security block is never verified and the bundle is delivered', lp, [wit])
@@ -305,3 +324,38 @@ def _reason_kind(v):
     if isinstance(v, ast.Constant) and isinstance(v.value, int):
         return 'int'
     return '?'
+
+
+
+def c12j(tree, ob):
+    ''' _verify_bib / _verify_bcb find their blocks through ctr.block_type(11 / 12).  (1) BundleContainer.reload() must index
+    every block under its type code: a "continue" ahead of the type index -- e.g. for a block whose number is null --
+    hides that block from verification while the bundle is still delivered.  (2) the list decoder of scapy_cbor must not
+    drop an item it cannot decode: a malformed BIB would disappear from the bundle before anyone looks for it. '''
+    fv = FuncView(tree, UTIL, 'BundleContainer.reload')
+    loops = [n for n in walk_local(fv.func) if isinstance(n, ast.For) and 'blocks' in src(n.iter)]
+    lp = one(loops, 'loop over the blocks in reload()', ob)
+    idx = [c for c in calls_in(lp) if pm('self._block_types($k).append($b)', c) is not None] + \
+          [n for n in walk_local(lp) if isinstance(n, ast.Assign) and pm('self._block_type[$k]', n.targets[0]) is not None]
+    ob.require(idx, 'type index update in reload()')
+    head = fv.node(lp.iter)
+    first = fv.node(lp.body[0])
+    # every way round the loop body (exceptions apart) passes the type index
+    ok = fv.cfg.must_pass(first, head, {fv.node(i) for i in idx}, include_exc=False)[0]
+    # (an inner for over the keys: its iter node stands for the appends)
+    inner = [n for n in walk_local(lp) if isinstance(n, ast.For) and n is not lp and any(i in list(ast.walk(n)) for i in idx)]
+    if not ok and inner:
+        ok = fv.cfg.must_pass(first, head, {fv.node(inner[0].iter)}, include_exc=False)[0]
+    if ok:
+        ob.site(UTIL, idx[0], 'every block is indexed under its type code')
+    else:
+        ob.violate(UTIL, fv.qual, 'for blk in blocks: ... continue ... self._block_types(key).append(blk)', 'a block can be skipped before it is entered into the type index: a security block that is not '
+                   'indexed (e.g. one with a null block number) is never verified, and the bundle it was meant to protect is delivered', lp)
+    fl = FuncView(tree, 'scapy_cbor/fields.py', 'PacketListField.getfield')
+    hs = [h for h in walk_local(fl.func) if isinstance(h, ast.ExceptHandler)]
+    swallow = [h for h in hs if not (h.body and isinstance(h.body[-1], ast.Raise) and h.body[-1].exc is None) and not any(isinstance(x, ast.Raise) and enclosing(x, (ast.If,)) is None for x in h.body)]
+    if swallow:
+        ob.violate('scapy_cbor/fields.py', fl.qual, 'except {}: ... (no unconditional re-raise)'.format(src(swallow[0].type) if swallow[0].type is not None else ''), 'an item of a packet list that cannot be decoded is skipped: a '
+                   'malformed security block disappears from the decoded bundle, nothing is left to verify, and the bundle is delivered', swallow[0])
+    else:
+        ob.site('scapy_cbor/fields.py', fl.func, 'PacketListField.getfield lets a decode failure of an item fail the whole list')
